@@ -628,3 +628,65 @@ Proof.
   unfold bind at 1. unfold skip_non_blank, in_skip, adv_mark, modify, bind at 1. cbn.
   apply N.eqb_neq in Hc. unfold chr in *. rewrite Hc. cbn. rewrite Hp. cbn. rewrite Hf, Ha. reflexivity.
 Qed.
+
+(* ================================================================================================ *)
+(* The full property as a closed statement: a (small) renderer of well-formed one-line flow documents  *)
+(* composed with damage operators.  Stated, not proved -- and refuted, see Properties/C06.v.           *)
+(* ================================================================================================ *)
+Inductive wf_flow :=
+| WWord (w : list N)                      (* plain scalar of lower-case letters *)
+| WQuoted (w : list N)                    (* 'letters' *)
+| WEmptyKey                               (* "? " : explicit key with empty key and value; a sequence entry only *)
+| WSeq (l : list wf_flow)
+| WMap (l : list (list N * wf_flow)).
+
+Definition lower_word (w : list N) : Prop := w <> [] /\ Forall (fun c => 97 <= c /\ c <= 122) w.
+
+Inductive wf_ok : bool -> wf_flow -> Prop :=     (* the flag: directly inside a flow sequence *)
+| OkWord b w : lower_word w -> wf_ok b (WWord w)
+| OkQuoted b w : lower_word w -> wf_ok b (WQuoted w)
+| OkEmptyKey : wf_ok true WEmptyKey
+| OkSeq b l : Forall (wf_ok true) l -> wf_ok b (WSeq l)
+| OkMap b l : Forall (fun kv => lower_word (fst kv) /\ wf_ok false (snd kv)) l -> wf_ok b (WMap l).
+
+Fixpoint join_with (sep : list N) (l : list (list N)) : list N :=
+  match l with
+  | [] => []
+  | [x] => x
+  | x :: r => x ++ sep ++ join_with sep r
+  end.
+
+Fixpoint render_flow (f : wf_flow) : list N :=
+  match f with
+  | WWord w => w
+  | WQuoted w => [39] ++ w ++ [39]
+  | WEmptyKey => [63; 32]
+  | WSeq l => [91] ++ join_with [44; 32] (map render_flow l) ++ [93]
+  | WMap l => [123] ++ join_with [44; 32] (map (fun kv => fst kv ++ [58; 32] ++ render_flow (snd kv)) l) ++ [125]
+  end.
+
+Definition is_collection (f : wf_flow) : bool := match f with WSeq _ | WMap _ => true | _ => false end.
+Definition not_plain (f : wf_flow) : bool := match f with WWord _ | WEmptyKey => false | _ => true end.
+Definition other_closer (c : N) : N := if c =? 93 then 125 else 93.
+
+(* damaged texts, each ill-formed by construction: the root node is a complete one-line flow node at column 0 *)
+Inductive damaged : list N -> Prop :=
+| DStrayCloser f c : wf_ok false f -> is_collection f = true -> (c = 93 \/ c = 125) ->
+    damaged (render_flow f ++ [32; c; 10])                                   (* "[a, b] ]"          *)
+| DDropCloser f : wf_ok false f -> is_collection f = true ->
+    damaged (removelast (render_flow f) ++ [10])                             (* "[a, b"             *)
+| DSwapCloser f : wf_ok false f -> is_collection f = true ->
+    damaged (removelast (render_flow f) ++ [other_closer (last (render_flow f) 0); 10])   (* "[a, b}" *)
+| DSecondRoot f g : wf_ok false f -> wf_ok false g -> not_plain f = true ->
+    damaged (render_flow f ++ [10] ++ render_flow g ++ [10]).                (* "[a]" NL "b"       *)
+
+Definition C06_full_flow_fragment : Prop := forall s, damaged s -> snd (run_str s) <> PDone.
+
+Lemma C06_full_flow_fragment_refuted : ~ C06_full_flow_fragment.
+Proof.
+  intros H.
+  assert (D : damaged (render_flow (WSeq [WEmptyKey]) ++ [32; 93; 10])).
+  { apply DStrayCloser; [ | reflexivity | left; reflexivity ].
+    apply OkSeq. repeat constructor. }
+  apply (H _ D). vm_compute. reflexivity.
+Qed.
